@@ -43,6 +43,7 @@ fn c20_strategy() -> impl Strategy<Value = Scenario> {
             manual_getinfo: true,
             crash_at: vec![],
             freeze: None,
+        hold: vec![],
         })
 }
 
@@ -73,12 +74,90 @@ fn case(scn: &Scenario) -> CaseReport {
     rep
 }
 
+// ------------------------------------------------------------------ parallel stress (multi-thread runtime)
+
+#[derive(Clone, Debug, serde::Serialize, serde::Deserialize)]
+pub struct Stress {
+    pub heights: Vec<u32>,
+    pub readers: u16,
+}
+
+fn stress_strategy() -> impl Strategy<Value = Stress> {
+    (proptest::collection::vec(prop_oneof![3 => 1000u32..1100, 1 => 0u32..5000], 300..1500), 0u16..200).prop_map(|(heights, readers)| Stress { heights, readers })
+}
+
+/// Many block_added notifications handled concurrently on a multi-thread runtime (as in
+/// production): whatever the interleaving, the final height must be the maximum told.
+/// Sound oracle, probabilistic search (thread scheduling is not controlled).
+fn stress_case(c: &Stress) -> CaseReport {
+    use crate::block_watcher::{BlockProvider, BlockWatcher};
+    use crate::messages::BlockAdded;
+    use std::sync::Arc;
+    let mut rep = CaseReport::default();
+    let rt = tokio::runtime::Builder::new_multi_thread().worker_threads(4).enable_all().build().unwrap();
+    let max = c.heights.iter().cloned().max().unwrap_or(0);
+    let (last, seen_decrease) = rt.block_on(async {
+        let w = Arc::new(BlockWatcher::new(Arc::new(crate::rpc::Rpc::new("/nonexistent/lightning-rpc".into()))));
+        let mut tasks = vec![];
+        for h in c.heights.iter().cloned() {
+            let w = w.clone();
+            tasks.push(tokio::spawn(async move {
+                w.new_block(&BlockAdded { height: h }).await;
+                0u32
+            }));
+        }
+        let mut readers = vec![];
+        for _ in 0..c.readers {
+            let w = w.clone();
+            readers.push(tokio::spawn(async move {
+                // a reader must never see the height go down
+                let a = w.current_height().await;
+                tokio::task::yield_now().await;
+                let b = w.current_height().await;
+                (b < a) as u32
+            }));
+        }
+        for t in tasks {
+            let _ = t.await;
+        }
+        let mut dec = 0;
+        for r in readers {
+            dec += r.await.unwrap_or(0);
+        }
+        (w.current_height().await, dec)
+    });
+    drop(rt);
+    if last != max {
+        rep.violations.push(Violation::new("C20", "height_not_max_after_concurrent_notifications", format!("{} concurrent block_added notifications with maximum {max}: final height {last}", c.heights.len())));
+    }
+    if seen_decrease > 0 {
+        rep.violations.push(Violation::new("C20", "height_decreased_under_concurrency", format!("{seen_decrease} readers saw the height decrease")));
+    }
+    rep.nontrivial = true;
+    rep.fingerprint = fp_of(&c.heights);
+    rep.classes.push("parallel_stress".into());
+    rep.sample = Some(json!({"n_notifications": c.heights.len(), "max": max, "first": c.heights.iter().take(8).collect::<Vec<_>>()}));
+    rep
+}
+
+pub fn replay(engine: &str, c: serde_json::Value) -> Option<CaseReport> {
+    match engine {
+        "world" => Some(case(&serde_json::from_value(c).ok()?)),
+        "parallel-stress" => Some(stress_case(&serde_json::from_value(c).ok()?)),
+        _ => None,
+    }
+}
+
 pub fn run(tier: Tier, seed: u64) -> i32 {
     let rule = "WORLD with the real BlockWatcher (60 s poll loop, virtual time): sequences of poll replies (arbitrary, stale, repeated heights, RPC errors), block_added notifications, silent node height changes, ticks and restarts. Oracle after every step: current_height() equals the maximum over startup reply, answered polls and delivered notifications of this lifetime (hence monotone); the next poll request arrives within 60 s (+1 s) of the previous answer, successful or not. Non-trivial: a stale/repeated height was delivered after a higher one, or a poll failed; distinct by abstract trace hash. E2E (thorough): block_added notifications through the real binary decide the maxdelay of a following pay.";
     let mut s = Session::new("C20", tier, seed, "exploration", rule);
     s.assume("the first getinfo of a lifetime (BlockWatcher::start) is answered at once with the node's height; later polls are answered by driver steps");
     s.regress::<Scenario, _>("world", case);
     s.search("world-blockwatcher", "world", tier.pick(600, 10000), c20_strategy, case);
+    s.assume("parallel stress phase: real multi-thread runtime, scheduling not controlled - a violation found there is real, absence is weak evidence");
+    s.shrink_iters = 20;
+    s.search("parallel-stress", "parallel-stress", tier.pick(8, 200), stress_strategy, stress_case);
+    s.shrink_iters = 600;
     if tier == Tier::Thorough {
         crate::e2e::c20_e2e(&mut s);
     }
